@@ -45,7 +45,7 @@ theorem Spec.query_invisible [Inhabited α] (sem : LineSem α) (f : File α) (a 
   exact ⟨this, rfl⟩
 
 theorem validS_append (f : File Char) (a b : List (Op Char)) :
-    validS f (a ++ b) = (validS f a && validS (Spec.run codecSem f a).2 b) := by
+    validS f (a ++ b) = (validS f a && validS (Spec.run textSem f a).2 b) := by
   induction a generalizing f with
   | nil => simp [validS, Spec.run]
   | cons op a ih => simp [validS, Spec.run, ih, Bool.and_assoc]
